@@ -3,6 +3,8 @@
 // Add-only accessors for the C20 correspondence driver (mapped into config/retry by -overlay).
 package retry
 
+import "reflect"
+
 // VerifExcluded returns a copy of isSleepExcluded.
 func VerifExcluded() map[string]int {
 	m := map[string]int{}
@@ -34,3 +36,15 @@ func (c *Config) VerifFn() (base, cap, jitter int) {
 
 // VerifExpo is expo (unexported).
 func VerifExpo(base, cap, n int) int { return expo(base, cap, n) }
+
+// VerifKeepGoing reads keepGoingWhenKilled (by name, so that the file also builds against trees without the field): 1 / 0, -1 = no such field.
+func (b *Backoffer) VerifKeepGoing() int {
+	f := reflect.ValueOf(b).Elem().FieldByName("keepGoingWhenKilled")
+	if !f.IsValid() {
+		return -1
+	}
+	if f.Bool() {
+		return 1
+	}
+	return 0
+}
